@@ -1042,3 +1042,37 @@ func init() {
 	})
 	in("(*strings.Builder).Grow", func(st *State, c *frame, fn *ssa.Function, a []Value) Value { return nil })
 }
+
+func init() {
+	in := func(name string, f intrinsic) { intrinsics[name] = f }
+	in("bytes.Equal", func(st *State, c *frame, fn *ssa.Function, a []Value) Value {
+		x, y := a[0].(Slice), a[1].(Slice)
+		if len(x.A) != len(y.A) {
+			return FalseT
+		}
+		res := TrueT
+		for i := range x.A {
+			res = And(res, Eq(x.A[i].(*Term), y.A[i].(*Term)))
+		}
+		return res
+	})
+	in("bytes.Compare", func(st *State, c *frame, fn *ssa.Function, a []Value) Value {
+		x, y := a[0].(Slice), a[1].(Slice)
+		for i := 0; i < len(x.A) && i < len(y.A); i++ {
+			xi, yi := x.A[i].(*Term), y.A[i].(*Term)
+			if st.decide(BvCmp(OBvUlt, xi, yi)) {
+				return BVC(64, ^uint64(0))
+			}
+			if st.decide(BvCmp(OBvUlt, yi, xi)) {
+				return BVC(64, 1)
+			}
+		}
+		switch {
+		case len(x.A) < len(y.A):
+			return BVC(64, ^uint64(0))
+		case len(x.A) > len(y.A):
+			return BVC(64, 1)
+		}
+		return BVC(64, 0)
+	})
+}
